@@ -798,8 +798,9 @@ func reifyPrimitive(
 	if isNil(val) {
 		v := pointerize(t, baseType, reflect.Zero(baseType))
 		v = tryInitDefaults(v)
-		if hasInitDefaults(baseType) && val != nil {
-			// the value InitDefaults provided stays: it has to be valid
+		if val != nil {
+			// the zero value, or the value InitDefaults provided, stays: it
+			// has to be valid
 			if err := runValidators(v.Interface(), opts.validators); err != nil {
 				return reflect.Value{}, raiseValidation(val.Context(), val.meta(), "", err)
 			}
